@@ -66,6 +66,19 @@ EofPersistent == \A i, j \in 1..Len(hist) : (i < j /\ hist[i][2] = 3 /\ hist[j][
                                              /\ hist[i][3] = 1
                                              /\ ~\E m \in (i+1)..(j-1) : hist[m][2] = 2) => hist[j][3] = 1
 
+\* ---- driver generator (direction A): every legal sequence of exactly MaxEvents operations. The harness executes each sequence on a set
+\* of inputs (Extract acts on the last block NextBlock returned, Rewrite on every block returned so far, Render / AppendBlock / Format / Walk
+\* on the in-memory parse if there is one, else on the blocks returned so far - rewritten or not) and records the history for validation.
+\* "Total" is a statement about every call history, not only about the customary one.
+DrvNext == /\ Len(hist) < MaxEvents
+           /\ \E op \in Ops :
+                /\ CallOK(op, s)
+                /\ (op \in {4, 5} => s.parser # "none")
+                /\ s' = [s EXCEPT !.parser = IF op = 2 THEN "open" ELSE @]
+                /\ hist' = Append(hist, <<5, op, 0>>)
+           /\ UNCHANGED <<tid, verdict>>
+DrvEmit == Len(hist) = MaxEvents => PrintT(ToJson([ops |-> [i \in 1..Len(hist) |-> hist[i][2]]]))
+
 \* ---- trace validation
 Traces == ndJsonDeserialize(File)
 TraceInit == (\E k \in 1..Len(Traces) : tid = k /\ verdict = "init") /\ s = S0 /\ hist = <<>>
